@@ -1,2 +1,4 @@
 //! Reference implementations written for this harness, independent of rPGP's own code.
+pub mod sigdigest;
 pub mod text;
+pub mod wire;
